@@ -23,6 +23,7 @@ RULE = (
     "on_missing (ignore/warn/error); inputs for scoped runs are taken from the unscoped run's values; both runners (async under SimLoop delays); an "
     "injected node failure gives FAILED partial results and a pausing interrupt gives PAUSED ones. Non-trivial = entry points excluded >=1 node, or a "
     "selection removed >=1 produced output, or a failing/paused result was filtered; distinct = digest of (program shape, scope, selections, outcome kind)."
+    ' Also: the unconfigured graph object is run once and the scoped graph is derived from that same instance (object reuse).'
 )
 ASSUMPTIONS = [
     "value equality with the unscoped run is asserted only for gate-free scopes (an excluded gate legitimately changes which branches can run)",
